@@ -278,6 +278,18 @@ def make_system(parameters: ParameterNode) -> TaxBenefitSystem:
                 node = getattr(node, part)
             return node
 
+    class rp2(Variable):
+        value_type = float
+        entity = person
+        definition_period = DateUnit.DAY
+        label = "another variable reading the parameter CUR['path']"
+
+        def formula(population, period, parameters):
+            node = parameters(period)
+            for part in CUR["path"]:
+                node = getattr(node, part)
+            return node
+
     class rpz(Variable):
         value_type = float
         entity = person
@@ -291,7 +303,7 @@ def make_system(parameters: ParameterNode) -> TaxBenefitSystem:
             return node[CUR["keys"]]
 
     tbs = TaxBenefitSystem([person])
-    tbs.add_variables(rp, rpz)
+    tbs.add_variables(rp, rp2, rpz)
     tbs.parameters = parameters
     return tbs
 
